@@ -682,6 +682,16 @@ func (mf *MultiFileAppendable) appendableFor(off int64) (appendable.Appendable, 
 	}
 
 	app, err := mf.appendables.Get(appID)
+	if errors.Is(err, cache.ErrKeyNotFound) {
+		// a concurrent reader evicted the chunk between the open above and this lookup (more chunks
+		// are being read at once than the cache holds): serve this read from a private handle that
+		// is closed by the caller's Release, instead of reporting the cache miss as a read error
+		raw, oerr := mf.openAppendableFromSnapshot(snap, appendableName(appID, mf.fileExt), false, false)
+		if oerr != nil {
+			return nil, oerr
+		}
+		return &refCountedApp{Appendable: raw, refs: 1, evicted: true}, nil
+	}
 	if err != nil {
 		return nil, err
 	}
